@@ -115,7 +115,9 @@ PeeledNode_SP dialect::identifyRootNode(const Graph &graph) {
 NodeBuckets::NodeBuckets(Graph &graph) :
     m_graph(graph),
     m_maxDegree(graph.getMaxDegree()),
-    m_buckets(m_maxDegree + 1)
+    // Always provide the bucket of leaves (degree 1), even for a graph
+    // without edges: takeLeaves() reads it unconditionally.
+    m_buckets((m_maxDegree > 1 ? m_maxDegree : 1) + 1)
 {
     // Fill the buckets.
     for (auto p : graph.getNodeLookup()) {
